@@ -77,7 +77,8 @@ def gen_expr(rng, model):
                        {'$arrayElemAt': ['$arr', 0]}, {'$cond': ['$k', '$a', '$arr']}])
 
 
-PATHS = ['n', 'n', 'a.w', 'a.w', 'a.y.w', 'a.x.q', 'm.p', 'arr.w', 'k', 'a', 'n.w', 'j.w', 'f.w', 'q.w']
+PATHS = ['n', 'n', 'a.w', 'a.w', 'a.y.w', 'a.x.q', 'm.p', 'arr.w', 'arr.w', 'arr.p.q', 'arr.w.z', 'k', 'a',
+         'n.w', 'j.w', 'j.a.w', 'f.w', 'q.w']
 
 
 def gen_addfields(rng, model):
